@@ -153,18 +153,30 @@ func c10SpecialMAC() (o fw.Outcome) {
 // conformant AMF protects with COUNT 0x000100 - the first one after the 8-bit sequence number wrapped - carries a NAS-MAC
 // that ALSO verifies under COUNT 0x000000. A receiver that lets a trial integrity check decide whether the overflow
 // counter moves keeps the old value here; the wrap rule (sequence number went backwards) does not.
-func c10CoincidingMAC() (o fw.Outcome) {
+func c10CoincidingMAC(variant int) (o fw.Outcome) {
 	kInt, kEnc := unhex("5a0f1c3e7b2d4968a1b0c9d8e7f60514"), unhex("c3a5e1f2079b8d6412fe34ab56cd7890")
-	cuc := append([]byte{0x7e, 0x00, 0x54, 0x77, 0x00, 0x0b, 0xf2, 0x02, 0xf8, 0x39, 0xca, 0xfe, 0x00}, unhex("5700d286")...)
-	o.Input = fmt.Sprintf("NIA2/NEA2 kint=%x kenc=%x: 255 CONFIGURATION UPDATE COMMANDs (COUNT 1..255), one assigning 5G-TMSI 5700d286 at COUNT 0x100 (its NAS-MAC b49c57fc verifies under COUNT 0 as well), three more", kInt, kEnc)
-	o.Digest, o.Nontrivial = fw.HashS("coinciding-mac"), true
+	// variant 0: every COUNT 1..0x103 is sent, the coincidence sits on 0x100 (the sequence number falls from 255 to 0);
+	// variant 1: COUNT 1..8, then - sequence numbers skipped, as the property allows - 0x107 (the sequence number falls
+	// from 8 to 7, ONE below its predecessor: inside any "reordering window" a receiver might apply), then 0x108, 0x109
+	tmsi, special := "5700d286", 0x100
+	var counts []int
+	for c := 1; c <= 0x103; c++ {
+		counts = append(counts, c)
+	}
+	if variant == 1 {
+		tmsi, special = "674c13b8", 0x107
+		counts = []int{1, 2, 3, 4, 5, 6, 7, 8, 0x107, 0x108, 0x109}
+	}
+	cuc := append([]byte{0x7e, 0x00, 0x54, 0x77, 0x00, 0x0b, 0xf2, 0x02, 0xf8, 0x39, 0xca, 0xfe, 0x00}, unhex(tmsi)...)
+	o.Input = fmt.Sprintf("NIA2/NEA2 kint=%x kenc=%x: CONFIGURATION UPDATE COMMANDs at COUNT %d..%d, then one assigning 5G-TMSI %s at COUNT %#x (its NAS-MAC verifies under COUNT %#x as well), then %d more", kInt, kEnc, counts[0], counts[len(counts)-4], tmsi, special, special-0x100, 3)
+	o.Digest, o.Nontrivial = fw.HashS("coinciding-mac", tmsi), true
 	o.Tag("mac-coincides-under-stale-overflow")
 	ue := tglib.NewRanUeContext("imsi-208930000000003", 1, 2, 2)
 	copy(ue.KnasInt[:], kInt)
 	copy(ue.KnasEnc[:], kEnc)
-	for count := 1; count <= 0x103; count++ {
+	for _, count := range counts {
 		plain := []byte{0x7e, 0x00, 0x54}
-		if count == 0x100 {
+		if count == special {
 			plain = cuc
 		}
 		wire, err := sec.ProtectNAS(2, 2, kInt, kEnc, uint32(count), 1, 1, 2, true, plain)
@@ -172,10 +184,10 @@ func c10CoincidingMAC() (o fw.Outcome) {
 			o.Inconcl("reference protect: %v", err)
 			return
 		}
-		if count == 0x100 {
-			mac, merr := sec.NIA(2, kInt, 0, 1, 1, wire[6:]) // the same sequence number and ciphertext under the stale COUNT 0
+		if count == special {
+			mac, merr := sec.NIA(2, kInt, uint32(special-0x100), 1, 1, wire[6:]) // the same sequence number and ciphertext under the stale COUNT
 			if merr != nil || !bytes.Equal(mac, wire[2:6]) {
-				o.Inconcl("the stored vector no longer coincides under the reference (COUNT 0x100: %x, COUNT 0: %x, %v)", wire[2:6], mac, merr)
+				o.Inconcl("the stored vector no longer coincides under the reference (COUNT %#x: %x, COUNT %#x: %x, %v)", special, wire[2:6], special-0x100, mac, merr)
 				return
 			}
 		}
@@ -205,8 +217,8 @@ func runC10(c *fw.Case) (o fw.Outcome) {
 	if c.Idx == 0 {
 		return c10SpecialMAC()
 	}
-	if c.Idx == 1 {
-		return c10CoincidingMAC()
+	if c.Idx == 1 || c.Idx == 2 {
+		return c10CoincidingMAC(c.Idx - 1)
 	}
 	r := c.R
 	iAlg := uint8(1 + c.Idx%2)
